@@ -104,7 +104,7 @@ def strategy(tier):
 
 EXHAUSTIVE_NOTE = ("unit displacement gradients G = e_a (x) e_b for every (a,b): 2D x {plane strain, plane stress} on a 2x3 grid and "
                    "3D on a 2x3x2 grid, anisotropic element sizes, unit thickness (pins the position of every Voigt "
-                   "component separately)")
+                   "component separately); plus two fixed large meshes (50x45, 13x14x12)")
 
 
 def enumerate_cases(tier):
@@ -120,6 +120,14 @@ def enumerate_cases(tier):
                                 "xmode": "rand", "avg_ndof": 1 + (a + b) % 3,
                                 "op": {"ndof": 1 + (a + 2 * b) % 3, "lead": [2], "pernode": True},
                                 "payload_seed": 10 * a + b})
+    # two large meshes (2250 and 2184 elements, counts that are no multiple of a power of two): loops that
+    # process the elements in blocks have to handle the remainder
+    out.append({"dom": {"nel": [50, 45, 0], "unit": [0.6, 0.7, 1.0]}, "E": 67.0, "nu": 0.3, "plane": "stress", "alpha": 1e-5,
+                "gmode": "stretch", "G": [[1.0, 0.0], [0.0, -0.3]], "c": [0.0, 0.0], "xmode": "rand", "avg_ndof": 2,
+                "op": {"ndof": 2, "lead": [2], "pernode": True}, "payload_seed": 901})
+    out.append({"dom": {"nel": [13, 14, 12], "unit": [1.0, 0.9, 0.8]}, "E": 2.0, "nu": 0.25, "plane": "default",
+                "alpha": 1e-5, "gmode": "stretch", "G": [[0.5, 0, 0], [0, -0.2, 0], [0, 0, 0.3]], "c": [0.0, 0.0, 0.0],
+                "xmode": "rand", "avg_ndof": 1, "op": {"ndof": 1, "lead": [], "pernode": False}, "payload_seed": 902})
     return out
 
 
